@@ -68,6 +68,10 @@ structure Link where
   sinkPend : Option Bytes := none -- dest.Write in progress
   sinkReady : Bool := true
   sinkFail : Bool := false        -- dest.Write returns an error from now on
+  sinkErr  : Bool := false        -- a dest.Write did fail (io.Copy returned an error)
+  /-- the source was cut off by the proxy closing the socket (not by the peer ending its
+  stream): how much had been read by then depends on timing -/
+  srcCut   : Bool := false
   log      : List Delivery := []  -- newest first, since the last protocol line
   delivered : Bytes := []         -- ghost: everything the sink got
   sent     : Bytes := []          -- ghost: everything the source read
@@ -196,7 +200,12 @@ def Link.stageMove (l : Link) (i : Nat) (now : Int) (busy : Bool := false) : Opt
         let l1 := l.consume i src c.isSome now
         some { l1 with stages := modifyAt l1.stages i fun s => s.fire (.input c now drawsConst) }
       | none => none
-    else if !s.inq.isEmpty then none
+    else if s.st.closed && !s.pc.running && !l.ctlDrains i then
+      -- `ToxicStub.Close` leaves a goroutine draining the stub's input: chunks that still
+      -- arrive are received and dropped, so nothing upstream stays blocked on a send
+      match l.inputOf i with
+      | some (some _, src) => some (l.consume i src true now)
+      | _ => none
     else none
 
 /-- Buffered channel: an upstream offer moves into stage `i`'s buffer when there is room. -/
@@ -224,7 +233,7 @@ def Link.sinkMove (l : Link) (now : Int) : Option Link :=
   if l.destClosed then none else
   match l.sinkPend with
   | some d =>
-    if l.sinkFail then some { l with sinkPend := none, destClosed := true }
+    if l.sinkFail then some { l with sinkPend := none, destClosed := true, sinkErr := true }
     else if l.sinkReady then
       some { l with sinkPend := none, log := ⟨now, d⟩ :: l.log, delivered := l.delivered ++ d }
     else none
@@ -369,6 +378,9 @@ structure Coll where
   up    : List TCfg := [TCfg.noop]
   down  : List TCfg := [TCfg.noop]
   links : List NLink := []
+  /-- links whose sink goroutine has ended and which were removed from the collection;
+  their remaining goroutines (source, stubs) live on until they can exit -/
+  dead  : List NLink := []
   now   : Int := 0
   busy  : Bool := false          -- an API call holds the collection mutex
   queue : List ApiStep := []     -- remaining removals of a ResetToxics
@@ -436,6 +448,9 @@ def Coll.move (c : Coll) : Option Coll :=
   match Coll.linkMove c c.links with
   | some ls => some { c with links := ls }
   | none =>
+  match Coll.linkMove { c with busy := false } c.dead with
+  | some ls => some { c with dead := ls }
+  | none =>
     if c.busy && c.links.all (·.l.ctl.isNone) then
       -- wg.Wait() returned
       match c.queue with
@@ -446,7 +461,7 @@ def Coll.move (c : Coll) : Option Coll :=
       | [] => some { c with busy := false }
     else if !c.busy && c.links.any (·.l.destClosed) then
       -- RemoveLink / RemoveConnection (need the collection mutex)
-      some { c with links := c.links.filter (!·.l.destClosed) }
+      some { c with links := c.links.filter (!·.l.destClosed), dead := c.dead ++ c.links.filter (·.l.destClosed) }
     else none
 
 def Coll.settle : Nat → Coll → Coll
@@ -456,7 +471,7 @@ def Coll.settle : Nat → Coll → Coll
     | none => c
 
 def Coll.nextTimer (c : Coll) : Option Int :=
-  (c.links.filterMap (·.l.nextTimer)).foldl
+  ((c.links ++ c.dead).filterMap (·.l.nextTimer)).foldl
     (fun acc t => match acc with | none => some t | some a => some (min a t)) none
 
 def Coll.advance : Nat → Coll → Int → Coll
